@@ -204,4 +204,213 @@ example : (match decodeEds (toksE ⟨true, true, true, false⟩ ⟨none, [], non
     | .ok r => decide (r.1 = ⟨none, [], none⟩ ∧ r.2 = [])
     | .error _ => false) = true := by decide
 
+/-! ## Pins: the constants of the anchored code that the hand-written model mirrors
+
+`Generated/TablesC03.lean` is regenerated on every run from the live objects of /repo: the `(regex, name)` list of
+`_EDSLexer` in order and the flags of the compiled alternation, the JSON framing strings, the signatures (default
+arguments) of every public function of the three codecs and of the constructors, and for every anchored function its
+load skeleton read from the code object (`harness.c03.skel`: in instruction order the string / integer / None / Boolean
+constants, the global names, the attribute and method names and the comparison operators; docstrings and message
+texts dropped; no source text, no layout).  A change to any of them must be followed in the model (and here): this
+theorem stops checking, which the check reports as a broken proof obligation and then searches for a failing input.
+
+Which model definition hand-codes what:
+* `c03LexerTokens`/`c03LexerFlags` — the token classes `K` and the token texts of `Model.lean` (`tLbrace` … `tSym`, `tFragmented`,
+  the CARG class `("…")` whose group is what `escapeDQ` produces / `Codec.scanDQ` scans); the lexer itself is a parameter
+  (harness: `lex_tokens`, `is_symbol`, `lexable`), these patterns are what those predicates restate.
+* `c03SkelEdsDecodeEds` — `detectTop` (peek depths `0`, `2`, `3`; the kinds `COLON, GRAPHSTATUS, RBRACE, NODESTATUS` of the first
+  test, `GRAPHSTATUS, NODESTATUS` of the second, `COLON` of the third), `decodeNodes`, `decodeEds`;
+  `c03SkelEdsDecode` — `decodeAll`/`loadsToks`; `c03SkelEdsDecodeNode` — `decodeNode` (`.lower()`, `Lnk`, `_unescape`);
+  `c03SkelEdsDecodeProperties`/`…Edges` — `decodeProps`, `decodeEdges`, `pairsLoop`, `mkProps` (`upper`/`lower`), `mkEdges` (`upper`).
+* `c03SkelEdsEncodeEds` — `textE`, `toksE`, `EDS.startText` (`#`, newline or blank, `{`), `endText`, `EDS.topParts` (`:`,
+  `(fragmented)`), `EDS.membership`/`statusToks` (`|`, blank, empty), `EDS.reach`/`fragmented` (`_bfs`, `set(g)`);
+  `c03SkelEdsEncodeNode` — `nodeText`, `nodeToks`, `pairText`, `Node.showBlock`, `Node.typeOrU` (`variable.UNSPECIFIC`),
+  `sortProps`/`sortEdges` (`sorted … key=property_priority / role_priority`); `c03SkelEdsEscape`/`…Unescape`,
+  `c03SkelPenEscape`/`…Unescape` — `Codec.escapeDQ`/`unescapeDQ`; `c03SkelEdsDumps`/`…Encode`/`…Loads`/`…DecodeApi` — `dumpsText`, `encode`, options.
+* `c03SkelJsonToDict`/`…FromDict` — `toJNode`, `toDict` (keys `label, edges, lnk{from,to}, type, properties, carg, top, nodes`),
+  `ofJNode`, `fromDict`, `spanLt` (`(cfrom, -cto)`); `c03JsonFraming`, `c03SkelJsonEncode`/`…Dumps`/`…Decode`/`…Loads` — harness oracle only.
+* `c03SkelPenToTriples`/`…FromTriples` — `nodeTriples` (`:instance`, `:lnk`, `:carg`, `:type`, `:` + lower-cased name, `:` + role, quotes),
+  `topFirst`, `toTriples`, `tripleStep` (`lstrip(':')`, the four relation names, `strip('"')`, `islower()` dispatch, `upper()`),
+  `fromTriples`; `c03SkelPenEncode`/`…Dumps`/`…Decode`/`…Loads` — indent mapping used by the oracle.
+* `c03SkelUtilBfs` — `Sem.bfs`/`EDS.start` (start defaults to the first key); `c03SkelUtilPeek`/`…Next`/`…BufferFill`/`…Expect`/`…Accept` —
+  `peekAt` (StopIteration on an empty buffer, IndexError beyond a non-empty one), `acceptK`, `expectK`; `c03SkelUtilPrelex` — the
+  UNEXPECTED class raises in the lexer (harness `lex_tokens`).
+* `c03SkelRolePriority`/`…PropertyPriority` (+ `edsCommonProperties`) — `roleLt`, `propLt`, `propIndex`.
+* `c03SkelLnk*` — `Codec.Lnk.parse`/`str`/`truthy`/`cfrom`/`cto`; `c03SkelNodeInit`/`…EdsInit` — `Node`/`EDS` (None maps become `{}`).
+* `c03Signatures` — `Opts` and the defaults the harness and the oracle pass explicitly or rely on (buffer size 1024). -/
+theorem c03_pins :
+    Verif.Tables.c03LexerTokens =
+      [("\\#([^\\s\\{]+)\\s*(?=\\{|$)", "IDENTIFIER"), ("\\{", "LBRACE:{"), ("\\}", "RBRACE:}"),
+       ("\\((?:cyclic *)?(?:fragmented)?\\)", "GRAPHSTATUS"), ("\\|", "NODESTATUS:|"),
+       ("<(?:-?\\d+[:#]-?\\d+|@\\d+|\\d+(?: +\\d+)*)>", "LNK:a lnk value"),
+       ("\\(\"([^\"\\\\]*(?:\\\\.[^\"\\\\]*)*)\"\\)", "CARG:a string"), (":", "COLON::"), (",", "COMMA:,"),
+       ("\\[", "LBRACKET:["), ("\\]", "RBRACKET:]"), ("[^ \\n:,<\\(\\[\\]\\{\\}]+", "SYMBOL:a symbol"),
+       ("[^\\s]", "UNEXPECTED")]
+    ∧ Verif.Tables.c03LexerFlags = 32
+    ∧ Verif.Tables.c03JsonFraming = ["[", ",", "]"]
+    ∧ Verif.Tables.c03Signatures =
+      ["eds.load(source)", "eds.loads(s)",
+       "eds.dump(es, destination, properties=True, lnk=True, show_status=False, indent=True, encoding='utf-8')",
+       "eds.dumps(es, properties=True, lnk=True, show_status=False, indent=True)", "eds.decode(s)",
+       "eds.encode(e, properties=True, lnk=True, show_status=False, indent=True)", "edsjson.load(source)",
+       "edsjson.loads(s)",
+       "edsjson.dump(es, destination, properties=True, lnk=True, indent=False, encoding='utf-8')",
+       "edsjson.dumps(es, properties=True, lnk=True, indent=False)", "edsjson.decode(s)",
+       "edsjson.encode(eds, properties=True, lnk=True, indent=False)",
+       "edsjson.to_dict(eds, properties=True, lnk=True)", "edsjson.from_dict(d)", "edspenman.load(source)",
+       "edspenman.loads(s)",
+       "edspenman.dump(es, destination, properties=True, lnk=True, indent=False, encoding='utf-8')",
+       "edspenman.dumps(es, properties=True, lnk=True, indent=False)", "edspenman.decode(s)",
+       "edspenman.encode(e, properties=True, lnk=True, indent=False)",
+       "edspenman.to_triples(e, properties=True, lnk=True)", "edspenman.from_triples(triples)",
+       "Node(self, id, predicate, type=None, edges=None, properties=None, carg=None, lnk=None, surface=None, base=None)",
+       "EDS(self, top=None, nodes=None, lnk=None, surface=None, identifier=None)",
+       "LookaheadIterator(self, iterable, n=1024)", "LookaheadLexer(self, iterable, error_class, n=1024)",
+       "LookaheadIterator.peek(self, n=0, skip=None, drop=False)",
+       "LookaheadLexer.accept(self, arg, skip=None, drop=False)", "_bfs(g, start=None)"]
+    ∧ Verif.Tables.c03SkelEdsDecode = ["g:_EDSLexer", "a:lex", "a:peek", "g:_decode_eds", "a:peek", "g:StopIteration"]
+    ∧ Verif.Tables.c03SkelEdsDecodeEds =
+      ["a:accept_type", "g:IDENTIFIER", "a:expect_type", "g:LBRACE", "a:peek", "i:0", "g:COLON",
+       "g:GRAPHSTATUS", "g:RBRACE", "g:NODESTATUS", "o:CONTAINS_OP:0", "c:None", "a:accept_type", "g:COLON",
+       "a:accept_type", "g:GRAPHSTATUS", "a:peek", "i:2", "i:0", "g:GRAPHSTATUS", "g:NODESTATUS",
+       "o:CONTAINS_OP:0", "a:peek", "i:3", "i:0", "g:COLON", "o:COMPARE_OP:==", "a:expect_type", "g:SYMBOL",
+       "g:COLON", "a:accept_type", "g:GRAPHSTATUS", "c:None", "a:peek", "i:0", "g:RBRACE", "o:COMPARE_OP:!=",
+       "a:accept_type", "g:NODESTATUS", "a:expect_type", "g:SYMBOL", "g:COLON", "a:append", "g:_decode_node",
+       "a:peek", "i:0", "g:RBRACE", "o:COMPARE_OP:!=", "a:expect_type", "g:RBRACE", "g:EDS", "s:top", "s:nodes",
+       "s:identifier"]
+    ∧ Verif.Tables.c03SkelEdsDecodeNode =
+      ["a:expect_type", "g:SYMBOL", "a:lower", "g:Lnk", "a:accept_type", "g:LNK", "a:accept_type", "g:CARG",
+       "g:_unescape", "g:_decode_properties", "g:_decode_edges", "g:Node"]
+    ∧ Verif.Tables.c03SkelEdsDecodeProperties =
+      ["c:None", "a:accept_type", "g:LBRACE", "a:expect_type", "g:SYMBOL", "a:peek", "i:0", "g:RBRACE",
+       "o:COMPARE_OP:!=", "a:expect_type", "g:SYMBOL", "g:SYMBOL", "a:lower", "a:upper", "a:accept_type",
+       "g:COMMA", "a:expect_type", "g:RBRACE"]
+    ∧ Verif.Tables.c03SkelEdsDecodeEdges =
+      ["a:expect_type", "g:LBRACKET", "a:peek", "i:0", "g:RBRACKET", "o:COMPARE_OP:!=", "a:expect_type",
+       "g:SYMBOL", "g:SYMBOL", "a:upper", "a:accept_type", "g:COMMA", "a:expect_type", "g:RBRACKET"]
+    ∧ Verif.Tables.c03SkelEdsEncodeEds =
+      ["s:{", "a:identifier", "s:#", "a:identifier", "s:\n", "s: ", "s:{", "s:\n}", "s:}", "g:len", "a:nodes",
+       "i:0", "o:COMPARE_OP:==", "s:\n", "s: ", "s: ", "s:", "s:|", "s: ", "a:nodes", "a:id", "g:set",
+       "a:nodes", "a:edges", "a:values", "a:id", "a:add", "a:add", "a:id", "g:_bfs", "a:top", "s:start",
+       "a:top", "a:append", "a:top", "s::", "g:set", "o:COMPARE_OP:!=", "a:append", "s:(fragmented)",
+       "a:append", "s: ", "a:join", "a:nodes", "a:id", "o:CONTAINS_OP:0", "a:append", "g:_encode_node",
+       "a:join"]
+    ∧ Verif.Tables.c03SkelEdsEncodeNode =
+      ["a:id", "s::", "a:predicate", "a:lnk", "a:append", "g:str", "a:lnk", "a:carg", "a:append", "s:(\"{}\")",
+       "a:format", "g:_escape", "a:carg", "a:properties", "a:type", "a:append", "s:{", "a:append", "a:type",
+       "g:variable", "a:UNSPECIFIC", "a:properties", "g:sorted", "a:properties", "g:property_priority", "s:key",
+       "s:{} {}", "a:format", "a:properties", "a:append", "s: ", "s:, ", "a:join", "a:append", "s:}",
+       "a:append", "s:[", "a:edges", "g:sorted", "g:role_priority", "s:key", "a:append", "s:{} {}", "a:format",
+       "a:append", "s:, ", "a:join", "a:append", "s:]", "s:", "a:join"]
+    ∧ Verif.Tables.c03SkelEdsEscape = ["a:replace", "s:\\", "s:\\\\", "a:replace", "s:\"", "s:\\\""]
+    ∧ Verif.Tables.c03SkelEdsUnescape =
+      ["i:0", "g:len", "o:COMPARE_OP:<", "s:\\", "o:COMPARE_OP:==", "i:1", "g:len", "o:COMPARE_OP:<",
+       "a:append", "i:1", "i:2", "a:append", "i:1", "g:len", "o:COMPARE_OP:<", "s:", "a:join"]
+    ∧ Verif.Tables.c03SkelEdsDumps =
+      ["c:False", "o:IS_OP:0", "s: ", "s:\n\n", "a:join", "g:encode", "s:properties", "s:lnk", "s:show_status",
+       "s:indent"]
+    ∧ Verif.Tables.c03SkelEdsEncode = ["c:False", "o:IS_OP:0", "c:False", "c:True", "g:_encode_eds"]
+    ∧ Verif.Tables.c03SkelEdsDecodeApi = ["g:_EDSLexer", "a:lex", "a:splitlines", "g:_decode_eds"]
+    ∧ Verif.Tables.c03SkelEdsLoads = ["g:list", "g:_decode", "a:splitlines"]
+    ∧ Verif.Tables.c03SkelJsonToDict =
+      ["a:nodes", "a:predicate", "a:edges", "s:label", "s:edges", "a:lnk", "a:cfrom", "a:cto", "s:from", "s:to",
+       "s:lnk", "a:type", "a:type", "s:type", "a:properties", "s:properties", "a:carg", "a:carg", "s:carg",
+       "a:id", "a:top", "s:top", "s:nodes"]
+    ∧ Verif.Tables.c03SkelJsonFromDict =
+      ["a:get", "s:top", "a:get", "s:nodes", "a:items", "a:get", "s:properties", "c:None", "a:get", "s:type",
+       "c:None", "s:lnk", "o:CONTAINS_OP:0", "g:Lnk", "a:charspan", "s:lnk", "s:from", "s:lnk", "s:to",
+       "a:append", "g:Node", "s:label", "a:get", "s:edges", "a:get", "s:carg", "s:id", "s:predicate", "s:type",
+       "s:edges", "s:properties", "s:carg", "s:lnk", "a:sort", "a:cfrom", "a:cto", "s:key", "g:EDS", "s:nodes"]
+    ∧ Verif.Tables.c03SkelJsonEncode =
+      ["c:False", "o:IS_OP:0", "c:None", "c:True", "o:IS_OP:0", "i:2", "g:to_dict", "s:properties", "s:lnk",
+       "g:json", "a:dumps", "s:indent"]
+    ∧ Verif.Tables.c03SkelJsonDumps =
+      ["c:False", "o:IS_OP:0", "c:None", "c:True", "o:IS_OP:0", "i:2", "g:to_dict", "s:properties", "s:lnk",
+       "g:json", "a:dumps", "s:indent"]
+    ∧ Verif.Tables.c03SkelJsonDecode = ["g:from_dict", "g:json", "a:loads"]
+    ∧ Verif.Tables.c03SkelJsonLoads = ["g:json", "a:loads", "g:from_dict"]
+    ∧ Verif.Tables.c03SkelPenToTriples =
+      ["a:nodes", "a:id", "g:set", "a:nodes", "a:edges", "a:values", "a:id", "a:add", "a:add", "a:id", "g:_bfs",
+       "a:top", "s:start", "c:True", "g:sorted", "a:nodes", "a:id", "a:top", "o:COMPARE_OP:!=", "s:key", "a:id",
+       "o:CONTAINS_OP:0", "a:append", "s::instance", "a:predicate", "a:lnk", "a:append", "s::lnk", "s:\"{}\"",
+       "a:format", "g:str", "a:lnk", "a:carg", "a:append", "s::carg", "s:\"{}\"", "a:format", "g:_escape",
+       "a:carg", "a:type", "a:append", "s::type", "a:type", "g:sorted", "a:properties", "g:property_priority",
+       "s:key", "s::", "a:lower", "a:append", "a:properties", "g:sorted", "a:edges", "g:role_priority", "s:key",
+       "a:append", "s::", "a:edges", "c:False", "g:logger", "a:warning"]
+    ∧ Verif.Tables.c03SkelPenFromTriples =
+      ["a:lstrip", "s::", "o:CONTAINS_OP:1", "a:append", "c:None", "c:None", "c:None", "c:None", "s:pred",
+       "s:type", "s:edges", "s:props", "s:lnk", "s:carg", "s:instance", "o:COMPARE_OP:==", "s:pred", "s:lnk",
+       "o:COMPARE_OP:==", "g:Lnk", "a:strip", "s:\"", "s:lnk", "s:carg", "o:COMPARE_OP:==", "i:0", "i:-1",
+       "s:\"", "s:\"", "o:COMPARE_OP:==", "g:_unescape", "i:1", "i:-1", "s:carg", "s:type", "o:COMPARE_OP:==",
+       "s:type", "a:islower", "s:props", "a:upper", "s:edges", "g:Node", "s:pred", "s:type", "s:edges",
+       "s:props", "s:carg", "s:lnk", "s:type", "s:edges", "s:properties", "s:carg", "s:lnk", "i:0", "c:None",
+       "g:EDS", "s:top", "s:nodes"]
+    ∧ Verif.Tables.c03SkelPenEscape = ["a:replace", "s:\\", "s:\\\\", "a:replace", "s:\"", "s:\\\""]
+    ∧ Verif.Tables.c03SkelPenUnescape =
+      ["i:0", "g:len", "o:COMPARE_OP:<", "s:\\", "o:COMPARE_OP:==", "i:1", "g:len", "o:COMPARE_OP:<",
+       "a:append", "i:1", "i:2", "a:append", "i:1", "g:len", "o:COMPARE_OP:<", "s:", "a:join"]
+    ∧ Verif.Tables.c03SkelPenEncode =
+      ["c:True", "o:IS_OP:0", "i:-1", "c:False", "o:IS_OP:0", "c:None", "g:to_triples", "s:properties", "s:lnk",
+       "g:penman", "a:Graph", "g:penman", "a:encode", "s:indent", "g:penman", "a:PenmanError",
+       "g:PyDelphinException", "c:None"]
+    ∧ Verif.Tables.c03SkelPenDumps =
+      ["c:True", "o:IS_OP:0", "i:-1", "c:False", "o:IS_OP:0", "c:None", "g:penman", "a:Graph", "g:to_triples",
+       "s:properties", "s:lnk", "g:penman", "a:dumps", "s:indent", "g:penman", "a:PenmanError",
+       "g:PyDelphinException", "c:None"]
+    ∧ Verif.Tables.c03SkelPenDecode =
+      ["g:penman", "a:decode", "g:from_triples", "a:triples", "g:penman", "a:PenmanError",
+       "g:PyDelphinException", "c:None"]
+    ∧ Verif.Tables.c03SkelPenLoads =
+      ["g:penman", "a:loads", "g:from_triples", "a:triples", "g:penman", "a:PenmanError",
+       "g:PyDelphinException", "c:None"]
+    ∧ Verif.Tables.c03SkelUtilBfs =
+      ["g:set", "g:set", "g:next", "g:iter", "g:deque", "a:popleft", "o:CONTAINS_OP:1", "a:add", "a:extend",
+       "o:CONTAINS_OP:1", "a:get"]
+    ∧ Verif.Tables.c03SkelUtilPeek =
+      ["a:_buffer", "a:popleft", "c:None", "a:append", "i:0", "o:COMPARE_OP:>=", "i:1", "i:0",
+       "o:COMPARE_OP:>=", "a:extendleft", "g:reversed", "a:_buffer_fill", "i:1", "g:StopIteration",
+       "g:IndexError", "a:_buffer_fill", "g:StopIteration", "c:None"]
+    ∧ Verif.Tables.c03SkelUtilNext =
+      ["a:_buffer", "a:popleft", "i:0", "g:IndexError", "a:_buffer_fill", "g:StopIteration", "c:None",
+       "g:IndexError", "a:_buffer_fill", "g:StopIteration", "c:None"]
+    ∧ Verif.Tables.c03SkelUtilBufferFill =
+      ["a:_n", "a:_iterable", "a:_buffer", "a:append", "g:range", "g:max", "g:len", "i:0", "g:next", "c:True",
+       "g:StopIteration", "g:len", "i:0", "o:COMPARE_OP:==", "c:False", "c:True"]
+    ∧ Verif.Tables.c03SkelUtilExpect =
+      ["a:next", "s:skip", "c:None", "o:COMPARE_OP:!=", "g:str", "o:COMPARE_OP:!=", "g:repr", "a:_errcls",
+       "s:expected: ", "s:lineno", "s:offset", "s:text", "a:append", "g:len", "i:1", "o:COMPARE_OP:==", "i:0"]
+    ∧ Verif.Tables.c03SkelUtilAccept = ["a:peek", "s:skip", "s:drop", "o:COMPARE_OP:==", "o:COMPARE_OP:==", "a:next", "s:skip"]
+    ∧ Verif.Tables.c03SkelUtilPrelex =
+      ["a:_re", "a:finditer", "a:tokentypes", "a:UNEXPECTED", "g:enumerate", "i:1", "i:0", "a:lastindex",
+       "a:start", "o:COMPARE_OP:==", "a:_errcls", "s:unexpected input", "s:lineno", "s:offset", "s:text",
+       "a:group", "g:StopIteration"]
+    ∧ Verif.Tables.c03SkelRolePriority = ["a:upper", "s:LBL", "o:COMPARE_OP:!=", "s:BODY", "s:CARG", "o:CONTAINS_OP:0"]
+    ∧ Verif.Tables.c03SkelPropertyPriority = ["g:_COMMON_PROPERTY_INDEX", "a:get", "a:upper", "g:len", "g:_COMMON_PROPERTIES"]
+    ∧ Verif.Tables.c03SkelLnkInit =
+      ["g:Lnk", "a:UNSPECIFIED", "a:type", "c:None", "a:data", "c:None", "i:1", "i:-1", "c:None", "s:<", "s:>",
+       "o:COMPARE_OP:==", "i:1", "i:-1", "a:startswith", "s:@", "g:Lnk", "a:EDGE", "a:type", "g:int", "i:1",
+       "c:None", "a:data", "s::", "o:CONTAINS_OP:0", "a:split", "s::", "g:Lnk", "a:CHARSPAN", "a:type", "g:int",
+       "g:int", "a:data", "s:#", "o:CONTAINS_OP:0", "a:split", "s:#", "g:Lnk", "a:CHARTSPAN", "a:type", "g:int",
+       "g:int", "a:data", "g:Lnk", "a:TOKENS", "a:type", "g:tuple", "g:map", "g:int", "a:split", "a:data",
+       "g:Lnk", "a:CHARSPAN", "g:Lnk", "a:CHARTSPAN", "g:Lnk", "a:TOKENS", "g:Lnk", "a:EDGE", "o:CONTAINS_OP:0",
+       "a:type", "a:data", "g:LnkError", "a:format"]
+    ∧ Verif.Tables.c03SkelLnkStr =
+      ["a:type", "g:Lnk", "a:UNSPECIFIED", "o:COMPARE_OP:==", "s:", "a:type", "g:Lnk", "a:CHARSPAN",
+       "o:COMPARE_OP:==", "s:<{}:{}>", "a:format", "a:data", "i:0", "a:data", "i:1", "a:type", "g:Lnk",
+       "a:CHARTSPAN", "o:COMPARE_OP:==", "s:<{}#{}>", "a:format", "a:data", "i:0", "a:data", "i:1", "a:type",
+       "g:Lnk", "a:EDGE", "o:COMPARE_OP:==", "s:<@{}>", "a:format", "a:data", "a:type", "g:Lnk", "a:TOKENS",
+       "o:COMPARE_OP:==", "s:<{}>", "a:format", "s: ", "a:join", "g:map", "g:str", "a:data"]
+    ∧ Verif.Tables.c03SkelLnkBool =
+      ["a:type", "g:Lnk", "a:UNSPECIFIED", "o:COMPARE_OP:==", "c:False", "a:type", "g:Lnk", "a:CHARSPAN",
+       "o:COMPARE_OP:==", "a:data", "i:-1", "i:-1", "o:COMPARE_OP:==", "c:False", "c:True"]
+    ∧ Verif.Tables.c03SkelLnkCfrom =
+      ["i:-1", "a:lnk", "a:type", "g:Lnk", "a:CHARSPAN", "o:COMPARE_OP:==", "a:lnk", "a:data", "i:0",
+       "g:AttributeError"]
+    ∧ Verif.Tables.c03SkelLnkCto =
+      ["i:-1", "a:lnk", "a:type", "g:Lnk", "a:CHARSPAN", "o:COMPARE_OP:==", "a:lnk", "a:data", "i:1",
+       "g:AttributeError"]
+    ∧ Verif.Tables.c03SkelNodeInit = ["g:super", "a:edges", "a:properties", "a:carg"]
+    ∧ Verif.Tables.c03SkelEdsInit = ["g:super", "g:list"] := by
+  refine ⟨?_, ?_, ?_, ?_, ?_, ?_, ?_, ?_, ?_, ?_, ?_, ?_, ?_, ?_, ?_, ?_, ?_, ?_, ?_, ?_, ?_, ?_, ?_, ?_, ?_, ?_, ?_, ?_, ?_, ?_, ?_, ?_, ?_, ?_, ?_, ?_, ?_, ?_, ?_, ?_, ?_, ?_, ?_, ?_, ?_, ?_, ?_⟩ <;> rfl
+
 end Verif.C03
